@@ -3,7 +3,9 @@
 import json, os, glob
 HERE = os.path.dirname(os.path.dirname(os.path.abspath(__file__)))
 rows = []
-for d in sorted(glob.glob(os.path.join(HERE, 'seeded', 'C*-*'))):
+def _key(d):
+    b = os.path.basename(d); p, k = b.split('-'); return (p, int(k))
+for d in sorted(glob.glob(os.path.join(HERE, 'seeded', 'C*-*')), key=_key):
     m = json.load(open(os.path.join(d, 'meta.json')))
     pid = m['breaks']
     c = m.get('checks', {}).get(pid, {})
@@ -17,6 +19,9 @@ for d in sorted(glob.glob(os.path.join(HERE, 'seeded', 'C*-*'))):
                 l.startswith('VIOLATION') and 'no-failing-input-found' not in l for l in x.get('lines', []))
             return 'caught (%s%s)' % (st, ', no input' if nf else '')
         return 'MISSED'
+    if m.get('judged_outside'):
+        rows.append('| %s | %s | %s | %s | %s |' % (os.path.basename(d), (m.get('file') or '').replace('sc3/', ''), (m.get('summary') or '').replace('|', '/')[:150], 'not caught', 'judged outside the property: ' + m['judged_outside'][:120]))
+        continue
     rows.append('| %s | %s | %s | %s | %s |' % (os.path.basename(d), (m.get('file') or '').replace('sc3/', ''),
                 (m.get('summary') or '').replace('|', '/')[:150], verdict(first), verdict(now)))
 print('| seed | file | change | first evaluation | current check |')
